@@ -11,19 +11,31 @@
 //
 // recorded: {"ev":"obs","b":..,"t":..,"j":..,"lat":..} when the predicate returns, {"ev":"react","k":..,"t":..} from the
 // OnChangeToFalse ("unhealthy") / OnChangeToTrue ("healthy") callbacks, t = clock value in ticks.  Pure executor.
+//
+//	c20 wire <scripts.json> <outdir>    same scripts against failsafe.NewDiagnosisFailsafeStateChangeWatcher: settings come from
+//	    the DIAGNOSIS_FAILSAFE_* environment, the real predicate areSPOEConnectionsHealthy reads HAProxy statistics from the
+//	    loopback fake on localhost:9000 (which answers each request with the scripted observation), and the reactions are the
+//	    real ones: RevertToDiagnosisFree / RevertToLastLoaded on a real config.TxnPoliciesAccessor.  A reaction is recorded
+//	    when the accessor is seen to hold a new current version: diagnosis-free content = "unhealthy", full content = "healthy".
+//	    Exit code 4: port 9000 is not available.
 package main
 
 import (
 	"fmt"
+	"net"
+	"net/http"
 	"os"
 	"path/filepath"
 	"runtime"
+	"strconv"
 	"time"
 
+	"lunar/engine/config"
 	"lunar/engine/failsafe"
 
 	"github.com/rs/zerolog"
 
+	"verifharness/internal/c11acc"
 	"verifharness/internal/vh"
 )
 
@@ -56,6 +68,8 @@ type run struct {
 	tr         *vh.Trace
 	predCalled chan struct{}
 	predRet    chan obsIn
+	fx         *c11acc.Fixture // wire mode: the accessor the reactions act on
+	lastCur    int
 }
 
 func (r *run) ticks() int64 { return int64(r.clk.Now().Sub(epoch) / tick) }
@@ -80,6 +94,60 @@ func start(e Event, tr *vh.Trace) *run {
 	return r
 }
 
+// statsServer is the loopback fake of HAProxy's statistics page: each request is one call of the real predicate.
+type statsServer struct{ cur *run }
+
+func (s *statsServer) ServeHTTP(w http.ResponseWriter, _ *http.Request) {
+	r := s.cur
+	r.predCalled <- struct{}{}
+	in := <-r.predRet
+	r.tr.Add(vh.Ev{"ev": "obs", "b": in.b, "t": r.ticks(), "j": in.j, "lat": in.lat})
+	// healthy = session rate equal to the configured healthy rate (0) and last session older than the configured bound (10 s)
+	rate, lastsess := 0, 100
+	if !in.b {
+		rate = 7
+	}
+	fmt.Fprintf(w, "# pxname,svname,rate,lastsess\nother,FRONTEND,3,1\nlunar,BACKEND,%d,%d\n", rate, lastsess)
+}
+
+func startStats() *statsServer {
+	s := &statsServer{}
+	n := 0
+	for _, host := range []string{"127.0.0.1", "[::1]"} {
+		ln, err := net.Listen("tcp", host+":9000")
+		if err != nil {
+			continue
+		}
+		n++
+		go func() { _ = http.Serve(ln, s) }()
+	}
+	if n == 0 {
+		fmt.Fprintln(os.Stderr, "harness: localhost:9000 is not available")
+		os.Exit(4)
+	}
+	return s
+}
+
+func startWired(e Event, tr *vh.Trace, s *statsServer, dir string) *run {
+	r := &run{clk: vh.NewStepClock(epoch), tr: tr, predCalled: make(chan struct{}), predRet: make(chan obsIn)}
+	r.fx = c11acc.New(dir, "W", epoch)
+	r.lastCur = 1
+	s.cur = r
+	for k, v := range map[string]int{
+		"DIAGNOSIS_FAILSAFE_MIN_SEC_BETWEEN_CALLS": e.Iv, "DIAGNOSIS_FAILSAFE_CONSECUTIVE_N": e.N,
+		"DIAGNOSIS_FAILSAFE_MIN_STABLE_SEC": e.Ms, "DIAGNOSIS_FAILSAFE_COOLDOWN_SEC": e.Cd,
+		"DIAGNOSIS_FAILSAFE_HEALTHY_SESSION_RATE": 0, "DIAGNOSIS_FAILSAFE_HEALTHY_MAX_LAST_SESSION_SEC": 10,
+	} {
+		os.Setenv(k, strconv.Itoa(v))
+	}
+	w, err := failsafe.NewDiagnosisFailsafeStateChangeWatcher(r.fx.Accessor, r.clk)
+	if err != nil {
+		vh.Die("NewDiagnosisFailsafeStateChangeWatcher: %v", err)
+	}
+	w.RunInBackground()
+	return r
+}
+
 // untilPredicate lets the watcher run until it asks for the next observation; every timer it waits on meanwhile
 // (cool-down sleep, wait between calls) is fired j ticks late.  The watcher is the only user of the clock, so an
 // armed timer means it is (about to be) blocked on it.
@@ -92,6 +160,7 @@ func (r *run) untilPredicate(j int) {
 		default:
 		}
 		if at, ok := r.clk.NextTimer(); ok {
+			r.reactions() // the watcher sleeps: whatever it did after the last observation is done
 			r.clk.Set(at.Add(time.Duration(j) * tick))
 		} else {
 			runtime.Gosched()
@@ -102,8 +171,29 @@ func (r *run) untilPredicate(j int) {
 	}
 }
 
+// reactions (wire mode): a new current version of the accessor is the effect of a reaction.
+func (r *run) reactions() {
+	if r.fx == nil {
+		return
+	}
+	cur, vers, _ := r.fx.Accessor.VerifSnapshot()
+	for v := r.lastCur + 1; v <= int(cur); v++ {
+		k := "healthy"
+		if p, ok := vers[config.PoliciesVersion(v)]; ok {
+			if _, df := c11acc.Describe(p); df {
+				k = "unhealthy"
+			}
+		} else {
+			k = "unknown-version"
+		}
+		r.tr.Add(vh.Ev{"ev": "react", "k": k, "t": r.ticks(), "ver": v})
+	}
+	r.lastCur = int(cur)
+}
+
 func (r *run) step(e Event) {
 	r.untilPredicate(e.J)
+	r.reactions()
 	if e.Lat > 0 {
 		r.clk.Advance(time.Duration(e.Lat) * tick)
 	}
@@ -112,9 +202,16 @@ func (r *run) step(e Event) {
 
 func main() {
 	vh.Quiet()
-	if len(os.Args) != 4 || os.Args[1] != "run" {
-		vh.Die("usage: c20 run <scripts.json> <outdir>")
+	if len(os.Args) != 4 || (os.Args[1] != "run" && os.Args[1] != "wire") {
+		vh.Die("usage: c20 run|wire <scripts.json> <outdir>")
 	}
+	wire := os.Args[1] == "wire"
+	var stats *statsServer
+	if wire {
+		stats = startStats()
+		c11acc.StartFake(os.Getenv("HAPROXY_MANAGE_ENDPOINTS_PORT"), os.Getenv("LUNAR_HEALTHCHECK_PORT"))
+	}
+	nacc := 0
 	var scripts []Script
 	vh.ReadJSON(os.Args[2], &scripts)
 	for si, sc := range scripts {
@@ -126,7 +223,12 @@ func main() {
 				switch e.Ev {
 				case "reset":
 					tr.Add(vh.Ev{"ev": "reset", "N": e.N, "ms": e.Ms, "cd": e.Cd, "iv": e.Iv})
-					r = start(e, tr)
+					if wire {
+						nacc++
+						r = startWired(e, tr, stats, filepath.Join(os.Args[3], fmt.Sprintf("acc-%d", nacc)))
+					} else {
+						r = start(e, tr)
+					}
 				case "step":
 					r.step(e)
 				default:
@@ -137,6 +239,10 @@ func main() {
 				// the reactions to the last observation are logged before the watcher asks again; it then stays
 				// blocked in the predicate for ever (the watcher has no stop)
 				r.untilPredicate(0)
+				r.reactions()
+				if r.fx != nil {
+					os.RemoveAll(r.fx.Dir)
+				}
 			}
 		}
 		tr.Write(filepath.Join(os.Args[3], fmt.Sprintf("trace-%03d.ndjson", si)))
